@@ -121,8 +121,21 @@ func init() {
 		if strings.Contains(out, "Snapshot Summary") {
 			printed = "1"
 		}
-		fmt.Fprintf(r.w, "clean %d ofiles=%s otests=%s writes=%s printed=%s passed=%s failed=%s added=%s updated=%s skipped=%s removed=%s\n",
-			r.idx, vHexList(files, r.sb.virt), vHexList(tests, func(s string) string { return s }),
+		// is every line of the summary one this harness knows how to read? (if not, what it extracted above proves
+		// nothing about what the summary shows: the oracles then refrain from judging it)
+		layout := "1"
+		for _, l := range strings.Split(out, "\n") {
+			if strings.TrimSpace(l) == "" || l == "Snapshot Summary" || strings.HasPrefix(l, "To remove ") ||
+				vSumCount.MatchString(l) || vSumList.MatchString(l) || vSumItem.MatchString(l) {
+				continue
+			}
+			layout = "0"
+		}
+		if printed == "0" && strings.TrimSpace(out) != "" {
+			layout = "0"
+		}
+		fmt.Fprintf(r.w, "clean %d layout=%s ofiles=%s otests=%s writes=%s printed=%s passed=%s failed=%s added=%s updated=%s skipped=%s removed=%s\n",
+			r.idx, layout, vHexList(files, r.sb.virt), vHexList(tests, func(s string) string { return s }),
 			r.sb.writes(before, after), printed, counts["passed"], counts["failed"], counts["added"],
 			counts["updated"], counts["skipped"], removed)
 		r.sb.pin()
